@@ -36,10 +36,15 @@ CHECKS = {
           "Tie-heavy corpora over 1-4 segments with deletions, queries, filters, sort plans of 0-3 keys, page sizes 1..7 and all three execution strategies: the concatenated pages must equal the single covering request (ids, order, scores), without duplicates, with full pages and no cursor on the last page; total_hits_estimate never exceeds the true count and is exact when execution is exhaustive. The first page's cursor is then replayed after an add+commit, a compaction, a delete-only commit and against a different sort plan and must be rejected (leniently judged after a delete-only commit).",
           "Trusted: the single covering request as reference for order (C10 checks that order against an independent model). Cursor walks combined with rescore are not generated (unspecified).",
           "DESIGN.md §5 C11"),
+  "C12": ("exploration",
+          "property-based testing: the same documents under several segment layouts (metamorphic) plus an independent reference aggregation evaluator over the raw JSON documents",
+          "Corpora of 4-40 documents (keyword/i64/f64 fast fields: single, multi-valued, missing) with optional filter and deletions are committed under 3-4 segment layouts (one segment, two random partitions, one document per segment) and asked 6 aggregation trees of depth <= 2 (terms with size/min_doc_count/missing, rare_terms, range, histogram with offset/bounds/missing/min_doc_count, stats, extended_stats, value_count, cardinality, exact percentiles and percentile_ranks, filter, top_hits size/from/sort, plus composite and date_histogram for the layout comparison): (1) the responses under all layouts must be equal, (2) the response must equal the reference computation over the matched live documents, with limits and thresholds applied to the merged counts.",
+          "Trusted: harness/src/amodel.rs (the documented aggregation semantics), props/c13.rs json_close (counts, keys, ids exact; f64 1e-9 relative). The query is match_all (+ filter) so that top_hits scores do not depend on segment statistics; shard_size, sampling, precision_threshold and pipeline aggregations are not generated (documented as approximate or outside the property's list); range bounds never coincide with a data value.",
+          "DESIGN.md §5 C12"),
   "C13": ("exploration",
           "metamorphic property-based testing (one base request vs paging / sort / execution / flag / rescore variations)",
-          "For generated corpora, queries, filters, aggregation trees (terms, rare_terms, range, histogram, filter, composite, metrics, percentiles, top_hits) and completion suggest requests, the aggregations and suggestions of 5 variations per case (limit 1..n, return_hits=false, sort plans, wand/bmw block sizes, explain/profile, rescore, every page of a cursor walk) must equal those of a covering bm25 base request (counts exact, floats 1e-9 relative).",
-          "Trusted: json comparison only. Differences of top_hits scores under explain are attributed to the listed C20 finding.",
+          "For generated corpora, queries, filters, aggregation trees (terms, rare_terms, range, histogram, filter, composite, metrics, percentiles, top_hits) and completion suggest requests, the aggregations and suggestions of 5 variations per case (limit 1..n, return_hits=false, sort plans, wand/bmw block sizes, explain/profile, rescore, every page of a cursor walk) must equal those of a covering bm25 base request: counts, keys and document ids exact, f64 aggregates within 1e-9 relative, top_hits hit scores (f32 sums) within the harness-wide score tolerance of 1e-5 relative; a score-ordered top_hits list may hold another document at a position only when the scores there are within that tolerance (tie rule of DESIGN §8, counted as a class, not judged).",
+          "Trusted: the comparison only (props/c13.rs agg_cmp). Differences of top_hits scores under explain are attributed to the listed C20 finding.",
           "DESIGN.md §5 C13"),
   "C14": ("exploration",
           "metamorphic property-based testing (before/after Index::compact on generated histories, queries and filters)",
@@ -113,7 +118,7 @@ def main():
     },
     "engines": [
       {"name": "slverif", "path": "/verif/harness", "serves_properties": sorted(CHECKS.keys()),
-       "kind_free_text": "Rust harness crate: seeded parallel proptest runners (16 workers), shrinking, JSON replay files, known-finding matcher, evidence writer; depends on /repo/searchlite-* by path so every run rebuilds from the working tree"},
+       "kind_free_text": "Rust harness crate: seeded parallel proptest runners (16 workers), shrinking, JSON replay files, committed regression cases (/verif/regressions/<ID>/*.json, run first), known-finding matcher, evidence writer; depends on /repo/searchlite-* by path so every run rebuilds from the working tree"},
     ],
     "checks": checks,
     "not_applicable": na,
